@@ -88,6 +88,31 @@ def rule_r2(facts, rep, rid="C20-R2"):
             else:
                 rep.ok(rid, key, "(prev = self.id, id = new_node_id())", loc(f, call))
     rep.floor(rid, "GraphNode::new_* construction sites", n, 12)
+    # the tree -> graph copier treats every node kind alike: all arms of add_new_node_and link through the same helper (the one that leaves the caller's cursor where it is -
+    # append_from_visitor continues from the parent's cursor; a kind that moves it has its next sibling linked below itself and the rest of the chain orphaned)
+    an = facts.fn("GraphBuilder::add_new_node_and")
+    rep.saw_fn(an)
+    ms = [x for x in fb.walk(an.body) if x.get("k") == "match" and x.get("src", "Normal") == "Normal"]
+    key = an.def_ + "|arms-link-through-one-helper"
+    if ms:
+        used = {}
+        for arm in ms[0].get("arms", []):
+            hs = sorted(set(fb.last_seg(fb.callee(y) or "") for y in fb.walk(arm["body"]) if y.get("k") in ("mcall", "call") and fb.last_seg(fb.callee(y) or "").startswith("add_node_and")))
+            if hs:
+                used.setdefault(tuple(hs), []).append("|".join(fb.last_seg(v or "_") for v in fb.pat_variants(arm["pat"])))
+        if len(used) == 1 and len(next(iter(used))) == 1:
+            rep.ok(rid, key, "%d arms, all through %s" % (sum(len(v) for v in used.values()), next(iter(used))[0]), an.loc)
+        elif used:
+            major = max(used.items(), key=lambda kv: len(kv[1]))
+            odd = [(h, vs) for h, vs in used.items() if h != major[0]]
+            rep.violation(rid, key, "the arms of add_new_node_and do not link through one helper: %s use %s while %s use%s %s - the two differ in whether the caller's cursor moves, so for "
+                          "that kind the following sibling is linked in the wrong place and the blocks behind it stay live but unreachable"
+                          % (", ".join(major[1][:4]) + (" .." if len(major[1]) > 4 else ""), "/".join(major[0]), ", ".join(v for _h, vs in odd for v in vs), "s" if sum(len(vs) for _h, vs in odd) == 1 else "",
+                             ", ".join("/".join(h) for h, _vs in odd)), an.loc)
+        else:
+            rep.violation(rid, key, "no arm of add_new_node_and links the node it creates", an.loc)
+    else:
+        rep.anchor_missing(rid, "match on Node in GraphBuilder::add_new_node_and")
 
     # add_node_and / add_node_and2: child-or-next linking
     for name in ("GraphBuilder::add_node_and", "GraphBuilder::add_node_and2"):
@@ -502,6 +527,9 @@ def run(facts, rep, tier):
     rep.rule("C20-R5b", "= C04-R5b: every line has one owner - Arena::add_line stores and returns a freshly drawn id on every exit.")
     from . import arena
     arena.rule_fresh_ids(facts, rep, "C20-R5b")
+    rep.rule("C20-R11", "= C09-R8: asking for the node of an unknown key (or the parent / child of a node that has none) never answers with node 0.")
+    from . import ids
+    ids.rule_no_default_ids(facts, rep, "C20-R11")
     rule_r6(facts, rep)
     rep.rule("C20-R3b", "Asking a block for its note gives the owner: GraphNode::key() is Some only for the root kind (Document), and Graph::node_key climbs prev until then.")
     rule_r3b(facts, rep)
